@@ -64,8 +64,18 @@ func genAolListHistory(r *RNG, nBlocks int) []string {
 	for _, o := range sortedKeys(perOwner) {
 		add("G aol.owner %s %d", toks(o), perOwner[o])
 	}
-	for _, k := range order {
-		add("G aol.topic %s %s 0 %d", toks(k.o+"/"+k.t), toks("d"), len(writersOf[k]))
+	for ti, k := range order {
+		// records from offset 0 in most topics, with values that name the topic: an import that files a record under another
+		// topic (two genesis entries then meet in one store key, and the map order picks the survivor) cannot hide
+		nr := 0
+		if r.Chance(70) {
+			nr = 1 + r.Intn(3)
+		}
+		for j := 0; j < nr; j++ {
+			add("G aol.record %s %s %s %d %s", toks(fmt.Sprintf("%s/%s/%d", k.o, k.t, j)), toks(fmt.Sprintf("k%d.%d", ti, j)), toks(fmt.Sprintf("v-%s-%d", k.t, j)),
+				1700000000_000000000+int64(ti*10+j), toks(pick(r, owners[:2])))
+		}
+		add("G aol.topic %s %s %d %d", toks(k.o+"/"+k.t), toks("d"), nr, len(writersOf[k]))
 		for j, w := range writersOf[k] {
 			// distinct values per writer: an import that confuses writers cannot hide behind identical entries
 			add("G aol.writer %s %s %s %d", toks(k.o+"/"+k.t+"/"+w), toks(fmt.Sprintf("m%d", j)), toks(fmt.Sprintf("d%d", j)), 1700000000_000000000+int64(j))
